@@ -11,6 +11,7 @@ import (
 	"fmt"
 	"path/filepath"
 	"strconv"
+	"sync"
 
 	"github.com/cnotch/ipchub/av/format/mpegts"
 	"github.com/cnotch/ipchub/utils/murmur"
@@ -34,6 +35,11 @@ type SegmentGenerator struct {
 
 	sequenceNo int      // 片段序号
 	current    *segment //current segment
+
+	// ts muxer 协程写入与流关闭（另一个协程调用 Close）互斥；关闭后的写入被忽略，
+	// 否则关闭之后还会新开分段，其文件再也无人删除
+	l      sync.Mutex
+	closed bool
 
 	logger *xlog.Logger
 
@@ -95,8 +101,11 @@ func (sg *SegmentGenerator) segmentOpen(segmentStartDts int64) (err error) {
 
 // WriteMpegtsFrame implements mpegts.FrameWriter
 func (sg *SegmentGenerator) WriteMpegtsFrame(frame *mpegts.Frame) (err error) {
+	sg.l.Lock()
+	defer sg.l.Unlock()
+
 	// if current is NULL, segment is not open, ignore the flush event.
-	if nil == sg.current {
+	if sg.closed || nil == sg.current {
 		return
 	}
 	if len(frame.Payload) <= 0 {
@@ -228,6 +237,10 @@ func (sg *SegmentGenerator) isSegmentAbsolutelyOverflow() bool {
 
 // Close .
 func (sg *SegmentGenerator) Close() error {
+	sg.l.Lock()
+	defer sg.l.Unlock()
+	sg.closed = true
+
 	if nil == sg.current {
 		return nil
 	}
